@@ -39,6 +39,8 @@ func parenDelta(line string) (minDepth int, delta int) {
 	for i := 0; i < len(line); i++ {
 		c := line[i]
 		switch {
+		case c == '(' && i >= 4 && strings.EqualFold(line[i-4:i], "echo"):
+			// "echo(" is the robust spelling of echo, not a block
 		case c == '^' && i+1 < len(line):
 			i++
 		case c == '"':
@@ -159,6 +161,10 @@ func Lint(script string, userFuncs map[string]bool) []Issue {
 		}
 		// the if-end shape "goto :X / ) / :X" is not a routine; a routine's closing label differs from its entry
 		if strings.EqualFold(m[1], l2[1]) {
+			continue
+		}
+		// a routine returns with "exit /B" right before its closing label (a "goto :end" followed by a label is no routine)
+		if !strings.HasPrefix(strings.ToLower(strings.TrimSpace(lines[endIdx-1])), "exit /b") {
 			continue
 		}
 		routines = append(routines, routine{entry: strings.ToLower(l2[1]), start: i, end: endIdx})
